@@ -54,7 +54,7 @@ def gen_c02_random(rnd, tier):
                 # points live in a coordinate plane lifted to 3D; keep the query near it
                 pass
             qs.append(q)
-        out.append({'m': 'closest', 'op': 'curve', 'dim': dim, 'pts': pts, 'fc': False, 'sc': rnd.choice((0, -3, 4)), 'tolU': 0, 'qs': qs})
+        out.append({'m': 'closest', 'op': 'curve', 'dim': dim, 'pts': pts, 'fc': False, 'sc': rnd.choice((0, -3, 4)), 'tolU': 0, 'tf': rnd.choice((0, 0, 1, 2)), 'qs': qs})
     nmesh = 1 if tier == 'quick' else 12
     for _ in range(nmesh):
         w = rnd.randint(4, 6 if tier == 'quick' else 14)
